@@ -208,7 +208,7 @@ func TestCheck(t *testing.T) {
 		run.Note("first_touch_of_an_expired_key_by_operation", sh.firstTouch)
 		run.Finish(t)
 	})
-	run.Rule("(i) first-toucher matrix: 6 ways to write a short-lived record x 4 unrelated interludes x 3 clock advances x 17 first touchers x 9 second touchers; (ii) 1-3 waiters parked while the record is alive, 0..n-1 of them (the earliest) give up, clock advanced past the expiry; (iii)/(iv) every sequence over 23-24 operation instances (writes with short/long/no/past expiry on 2 keys, all readers, Advance 1/3/2000 units) to the depth bound plus seeded random sequences; each followed by a full observation (Get, GetMany, ListKeys, Create). Compared call by call with the contract model with a logical clock. distinct = distinct logical store states (presence, value, remaining lifetime, last write) reached")
+	run.Rule("(i) first-toucher matrix: 6 ways to write a short-lived record x 4 unrelated interludes x 3 clock advances x 17 first touchers x 9 second touchers; (ii) 1-3 waiters parked while the record is alive, 0..n-1 of them (the earliest) give up, clock advanced past the expiry; (iii)/(iv) every sequence over 23-24 operation instances (writes with short/long/no/past expiry on 2 keys, all readers, Advance 1/3/2000 units) to the depth bound plus seeded random sequences; each followed by a full observation (Get, GetMany, ListKeys, Create); (v) inmem on the real clock: a record without expiry is written right at the expiry of its predecessor while waiters are parked on it and a long ListKeys keeps the lock busy - it must survive. Compared call by call with the contract model with a logical clock. distinct = distinct logical store states (presence, value, remaining lifetime, last write) reached")
 	run.Assume("expirations lie at half clock units and the clock moves in whole units, so the exact expiry instant is never sampled")
 	run.Assume("inmem: testing/synctest virtual clock; Redis: miniredis, whose clock is the sum of FastForward calls")
 
@@ -227,6 +227,20 @@ func TestCheck(t *testing.T) {
 		}
 		sh.states[c] = struct{}{}
 	}
+
+	// ---------------- in-memory backend, real clock: a write racing the expiry wake-up of parked waiters
+	var rwg sync.WaitGroup
+	for i := 0; i < run.Pick(6, 40); i++ {
+		rwg.Add(1)
+		go func(i int) {
+			defer rwg.Done()
+			run.Eval(1)
+			if v := expiryRace(run, run.Seed()*977+int64(i)); v != nil {
+				run.Violation(v.Sig, v.What, map[string]any{"scenario": "expiry-race", "backend": "inmem", "seed": run.Seed()*977 + int64(i)})
+			}
+		}(i)
+	}
+	defer rwg.Wait()
 
 	// ---------------- Redis backend: miniredis, FastForward ----------------
 	t.Run("redis", func(t *testing.T) {
@@ -369,6 +383,63 @@ func TestChild(t *testing.T) {
 		res.Counters["first_touch_inmem_"+k] = n
 	}
 	shard.Emit(res)
+}
+
+// expiryRace (inmem, real clock): "a record whose expiration lies in the future, or that has none, is never
+// dropped" must also hold against the library's own expiry machinery. A waiter is parked on a record that
+// expires in a few milliseconds; right at the expiry a record WITHOUT expiry is written under the same key
+// while a long ListKeys keeps the store lock busy, so that the waiter's expiry wake-up and the write queue up
+// behind the lock in either order. Afterwards the key must hold the record without expiry. The clock only
+// creates the interleavings; the verdict (a successful Put without expiry, no Delete => Get finds it) is logical.
+func expiryRace(run *report.Run, seed int64) *kvmodel.Vio {
+	s := inmem.New()
+	bg := context.Background()
+	for i := 0; i < 60000; i++ { // filler keys make ListKeys hold the lock for a while
+		_, _ = s.Put(bg, kvs.Record{Key: fmt.Sprintf("fill/%d", i), Value: []byte("f")})
+	}
+	rng := rand.New(rand.NewSource(seed))
+	for round := 0; round < 12; round++ {
+		key := fmt.Sprintf("race/%d", round)
+		ttl := time.Duration(8+rng.Intn(8)) * time.Millisecond
+		at := time.Now().Add(ttl)
+		r0, err := s.Put(bg, kvs.Record{Key: key, Value: []byte("short"), ExpiresAt: &at})
+		if err != nil {
+			return &kvmodel.Vio{Sig: "inmem/Put/error", What: err.Error()}
+		}
+		var wg sync.WaitGroup
+		nw := 1 + rng.Intn(3)
+		for i := 0; i < nw; i++ {
+			wg.Add(1)
+			go func() {
+				defer wg.Done()
+				ctx, cancel := context.WithTimeout(bg, 2*time.Second)
+				defer cancel()
+				_ = s.WaitForVersionChange(ctx, key, r0.Version)
+			}()
+		}
+		wg.Add(1)
+		go func() { // keeps the lock busy around the expiry
+			defer wg.Done()
+			time.Sleep(time.Until(at) - 2*time.Millisecond)
+			for time.Now().Before(at.Add(6 * time.Millisecond)) {
+				if it, err := s.ListKeys(bg, "nomatch*"); err == nil {
+					_ = it.Close()
+				}
+			}
+		}()
+		// the write lands just after the expiry (+ the waiter's wake-up margin)
+		time.Sleep(time.Until(at) + time.Duration(500+rng.Intn(2500))*time.Microsecond)
+		if _, err := s.Put(bg, kvs.Record{Key: key, Value: []byte("keep")}); err != nil {
+			return &kvmodel.Vio{Sig: "inmem/Put/error", What: err.Error()}
+		}
+		wg.Wait()
+		run.Add("expiry_race_rounds", 1)
+		got, err := s.Get(bg, key)
+		if err != nil || string(got.Value) != "keep" {
+			return &kvmodel.Vio{Sig: "inmem/live-record-dropped-at-expiry-of-its-predecessor", What: fmt.Sprintf("a record without expiry was written (successfully) %v after its predecessor expired while %d waiters were parked on the predecessor; nobody deleted it, yet Get returns (%q, %v)", time.Since(at), nw, got.Value, err)}
+		}
+	}
+	return nil
 }
 
 func randomCase(backend string, seed int64, i int) kase {
